@@ -4,7 +4,7 @@ import vlib, smcheck, mirrorcheck
 
 META = {
     "level": "model_checking",
-    "text": "(a) Timer discipline: StateMachine.tla carries the outstanding step timer as a variable; TLC checks that a timer is armed exactly in the timed steps (awaiting proposal, prevote delay, precommit delay, commit wait) and that it is the timer of that step, over every order of events, and exports counterexample witnesses; behaviours are replayed on a real tmstate.StateMachine with a recording RoundTimer, which flags a timer started while another is outstanding and compares the outstanding timer with the step after every event. (b) Production timer: RoundTimer.tla models StandardRoundTimer's background goroutine (two selects, Go's random choice among ready cases) against a caller doing start / cancel / observe / cancel-then-start; TLC exhausts the interleavings, and the schedules are forced on the real goroutine through the verifRTGate hooks in child processes (see checks/c12_timer.py).",
+    "text": "(a) Timer discipline: StateMachine.tla carries the outstanding step timer as a variable; TLC checks that a timer is armed exactly in the timed steps (awaiting proposal, prevote delay, precommit delay, commit wait) and that it is the timer of that step, over every order of events, and exports counterexample witnesses; behaviours are replayed on a real tmstate.StateMachine with a recording RoundTimer, which flags a timer started while another is outstanding and compares the outstanding timer with the step after every event. (b) Production timer: RoundTimer.tla models StandardRoundTimer's background goroutine (two selects, Go's random choice among ready cases) against a caller doing start / cancel / observe / cancel-then-start; TLC exhausts the interleavings, and the schedules are forced on the real goroutine through the verifRTGate hooks in child processes (see checks/c12_timer.py). Generation for the state machine part: edge cover + simulation; the repository's own tests run under an invariant monitor (ArmedIffTimed at every trace point). A round timer goroutine that is blocked for good is reported from goroutine-stack evidence (NoLostStart/timer-goroutine-wedged).",
     "note": "Catch-up (no live round view) counts as an untimed state. The production-timer replay repeats each gated schedule 64 times because Go's select picks among ready cases at random.",
     "technique": "TLA+ specs (StateMachine.tla timer variable; RoundTimer.tla) + TLC exhaustive check + replay on the real state machine with a recording timer and gated schedules on the real StandardRoundTimer",
 }
